@@ -41,6 +41,7 @@ type Task struct {
 	Name     string
 	SUT      bool // spawned by instrumented code (go statement in a target package)
 	adopted  bool
+	fresh    bool
 	condWait bool
 	st       tstate
 	site     int
@@ -401,7 +402,9 @@ func (s *Sim) yield(site int, woke bool) {
 		}
 	}
 	s.mu.Lock()
-	if !woke && s.running != t {
+	if t.fresh {
+		t.fresh = false // first scheduling point of an adopted goroutine
+	} else if !woke && s.running != t {
 		// A task reached an instrumented point without the baton: it was
 		// released by something the instrumenter did not recognise.
 		s.LostControl++
@@ -425,7 +428,7 @@ func (s *Sim) adopt() *Task {
 	if g == s.rootGoid() {
 		return nil
 	}
-	t := &Task{ID: len(s.tasks), Name: "adopted", SUT: true, adopted: true, st: stRunning, resume: make(chan struct{}), inSUT: 1}
+	t := &Task{ID: len(s.tasks), Name: "adopted", SUT: true, adopted: true, fresh: true, st: stRunning, resume: make(chan struct{}), inSUT: 1}
 	s.tasks = append(s.tasks, t)
 	s.byGoid[g] = t
 	s.hb.fresh(t)
@@ -728,7 +731,9 @@ func (s *Sim) lock(key interface{}, rd bool, site int) bool {
 		return false
 	}
 	s.mu.Lock()
-	if s.running != t {
+	if t.fresh {
+		t.fresh = false
+	} else if s.running != t {
 		s.LostControl++
 	}
 	t.st = stMutex
